@@ -660,7 +660,11 @@ def main(argv):
         "wall_s": round(time.time() - t_start, 2),
         "violations": (1 if rc == 1 else 0),
     }
-    json.dump(ev, open(os.path.join(VERIF, "evidence", "%s.json" % pid), "w"), indent=1)
+    # written under a private name and renamed, so a reader never sees a half-written record
+    ev_path = os.path.join(VERIF, "evidence", "%s.json" % pid)
+    with open(ev_path + ".%d.tmp" % os.getpid(), "w") as f:
+        json.dump(ev, f, indent=1)
+    os.replace(ev_path + ".%d.tmp" % os.getpid(), ev_path)
     print("%s %s: %d theorems, %d cases (%d compared with the model, %d mismatches), %d known-finding inputs, %.1fs -> exit %d" %
           (pid, tier, len(thms), len(cases), len(model_obs), len(mismatches), sum(len(v) for v in known_hits.values()), time.time() - t_start, rc))
     return rc
